@@ -35,6 +35,8 @@ def make_coefs(m, P):
         c['D'] = mk_face(m, P['D'])
     if P.get('scheme', 'none') != 'none':
         c['u'] = mk_face(m, P['u'])
+        if P.get('uw') is not None:
+            c['uw'] = mk_face(m, P['uw'])       # separate upwind-direction field: the two-argument call forms
     if P.get('beta') is not None:
         c['beta'] = cellvar(m, P['beta'])
     if P.get('gamma') is not None:
@@ -58,9 +60,12 @@ def spatial_terms(m, P, phi_for_tvd=None, coefs=None):
         if sch == 'central':
             tl.append(pf.convectionTerm(u))
         else:
-            tl.append(pf.convectionUpwindTerm(u))
+            uw = c.get('uw')
+            tl.append(pf.convectionUpwindTerm(u) if uw is None else pf.convectionUpwindTerm(u, uw))
             if sch == 'tvd':
-                tl.append(pf.convectionTVDupwindRHSTerm(u, phi_for_tvd, pf.fluxLimiter(P.get('FL', 'SUPERBEE'))))
+                FL = pf.fluxLimiter(P.get('FL', 'SUPERBEE'))
+                tl.append(pf.convectionTVDupwindRHSTerm(u, phi_for_tvd, FL) if uw is None else
+                          pf.convectionTVDupwindRHSTerm(u, phi_for_tvd, FL, uw))
     if P.get('beta') is not None:
         tl.append(pf.linearSourceTerm(c['beta']))
     if P.get('gamma') is not None:
@@ -153,7 +158,7 @@ def symmetric_ends(faces):
 
 @st.composite
 def problems(draw, classes=None, nmax=4, nmax3=3, periodic=True, p_periodic=0.25, schemes=SCHEMES, need_D=True,
-             sink='maybe', bc_kinds=('D', 'N', 'R'), k2_exclude=True, alpha_cell=True, gamma=True, spacings=None):
+             sink='maybe', bc_kinds=('D', 'N', 'R'), k2_exclude=True, alpha_cell=True, gamma=True, spacings=None, dirfield=False):
     """generic well-posed transient problem"""
     from .common import GRIDS, is_periodic
     kw = {}
@@ -174,6 +179,11 @@ def problems(draw, classes=None, nmax=4, nmax3=3, periodic=True, p_periodic=0.25
     P['D'] = draw(gen.diffusivity(d, zeros=False)) if (need_D or draw(st.booleans())) else None
     P['u'] = draw(gen.face_field(d))
     P['FL'] = draw(gen.limiter_names)
+    if dirfield and P['scheme'] in ('upwind', 'tvd') and draw(st.integers(0, 2)) == 0:
+        # the documented optional second argument: a direction field independent of u (never exactly 0: K5)
+        seed = draw(st.integers(0, 2 ** 31 - 1))
+        P['uw'] = [(gen.expand('pos', seed + i, sh, 0.1, 2.0) * np.where(gen.expand('generic', seed + 10 + i, sh) > 0, 1.0, -1.0)).tolist()
+                   for i, sh in enumerate(face_shapes(d))]
     if alpha_cell and draw(st.booleans()):
         P['alpha'] = draw(gen.arrays(d, styles=('pos',), lo=0.2, hi=3.0, direct=False))
     else:
